@@ -17,14 +17,16 @@ import (
 	"verif/harness/gen"
 )
 
-func init() { register("meta", "metastore implementations over semantic fakes vs the key-table spec (C13)", runMeta) }
+func init() {
+	register("meta", "metastore implementations over semantic fakes vs the key-table spec (C13)", runMeta)
+}
 
 type metaRec struct {
-	Revoked bool   `json:"revoked"`
-	Created int64  `json:"created"`
-	Key     int    `json:"key"` // index into the key-bytes table
-	PID     int    `json:"pid"` // parent id index, -1 = no parent meta
-	PC      int64  `json:"pc"`
+	Revoked bool  `json:"revoked"`
+	Created int64 `json:"created"`
+	Key     int   `json:"key"` // index into the key-bytes table
+	PID     int   `json:"pid"` // parent id index, -1 = no parent meta
+	PC      int64 `json:"pc"`
 }
 
 type metaOp struct {
@@ -32,6 +34,9 @@ type metaOp struct {
 	ID  int      `json:"id"`
 	C   int64    `json:"c"`
 	Rec *metaRec `json:"rec,omitempty"`
+	// Fault (SQL only) makes the engine fail this one statement: "query", "rows" (accepted, then the connection drops while the row is
+	// fetched) for reads, "exec" for Store
+	Fault string `json:"fault,omitempty"`
 }
 
 type metaObs struct {
@@ -47,6 +52,7 @@ type metaCase struct {
 	Ops    []metaOp  `json:"ops"`
 	Obs    []metaObs `json:"obs"`
 	Viol   []string  `json:"viol,omitempty"`
+	sqlT   *fake.SQLTable
 }
 
 var metaIDs = []string{"_SK_svc_prod", "_IK_p1_svc_prod", "_IK_p2_svc_prod"}
@@ -99,6 +105,7 @@ func buildMetastore(c *metaCase) (ae.Metastore, error) {
 			style, typ = ":", persistence.Oracle
 		}
 		t := &fake.SQLTable{Name: "encryption_key", Style: style}
+		c.sqlT = t
 		if c.Impl == "sql-mysql" {
 			return persistence.NewSQLMetastore(fake.OpenSQL(t)), nil
 		}
@@ -140,8 +147,12 @@ func runMetaCase(c *metaCase) {
 			c.Viol = append(c.Viol, "region suffix disabled but GetRegionSuffix() = "+s.GetRegionSuffix())
 		}
 	}
+	stored := map[[2]int64]bool{} // (id, created) of every Store that reported success
 	for i, op := range c.Ops {
 		var ob metaObs
+		if op.Fault != "" && c.sqlT != nil {
+			c.sqlT.FailNext = op.Fault
+		}
 		func() {
 			defer func() {
 				if r := recover(); r != nil {
@@ -152,8 +163,13 @@ func runMetaCase(c *metaCase) {
 			switch op.K {
 			case "store":
 				ok, err := ms.Store(ctx, metaIDs[op.ID], op.C, op.Rec.toEKR())
+				if op.Fault != "" && c.sqlT != nil && !ok && err != nil {
+					ob.R = "err" // refused by the engine, nothing written: not part of the table's history
+					break
+				}
 				if ok {
 					ob.R = "true"
+					stored[[2]int64{int64(op.ID), op.C}] = true
 					if err != nil {
 						c.Viol = append(c.Viol, fmt.Sprintf("op %d: Store returned true with an error", i))
 					}
@@ -169,11 +185,24 @@ func runMetaCase(c *metaCase) {
 					e, err = ms.LoadLatest(ctx, metaIDs[op.ID])
 				}
 				switch {
+				case err != nil && op.Fault != "" && c.sqlT != nil:
+					ob.R, ob.Err = "err", err.Error() // the read could not be completed and said so
 				case err != nil:
 					ob.R, ob.Err = "err", err.Error()
 					c.Viol = append(c.Viol, fmt.Sprintf("op %d: %s failed: %v", i, op.K, err))
 				case e == nil:
 					ob.R = "none"
+					if op.Fault != "" && op.K == "load" && stored[[2]int64{int64(op.ID), op.C}] {
+						c.Viol = append(c.Viol, fmt.Sprintf("op %d: a Load that the engine could not complete (%s failure) answered 'no such record' for a key a completed Store had written", i, op.Fault))
+					}
+					if op.Fault != "" && op.K == "latest" {
+						for k := range stored {
+							if k[0] == int64(op.ID) {
+								c.Viol = append(c.Viol, fmt.Sprintf("op %d: a LoadLatest that the engine could not complete (%s failure) answered 'no record' for an id with stored keys", i, op.Fault))
+								break
+							}
+						}
+					}
 				default:
 					ob.R = "some"
 					var bad string
@@ -197,6 +226,7 @@ func genMetaCase(r *gen.Rand, impl string) *metaCase {
 		c.Suffix = r.Bool()
 	}
 	n := 4 + r.Intn(16)
+	sql := len(impl) > 4 && impl[:4] == "sql-"
 	stamps := []int64{1, 2, 3, 10, 1790000000, 1790000060}
 	for i := 0; i < n; i++ {
 		id := r.Intn(len(metaIDs))
@@ -215,6 +245,14 @@ func genMetaCase(r *gen.Rand, impl string) *metaCase {
 			c.Ops = append(c.Ops, metaOp{K: "load", ID: id, C: cr})
 		default:
 			c.Ops = append(c.Ops, metaOp{K: "latest", ID: id})
+		}
+		if sql && r.Chance(1, 6) { // the engine fails this one statement
+			last := &c.Ops[len(c.Ops)-1]
+			if last.K == "store" {
+				last.Fault = "exec"
+			} else {
+				last.Fault = gen.Pick(r, []string{"query", "rows", "rows"})
+			}
 		}
 	}
 	return c
